@@ -281,6 +281,15 @@ pub fn queries(tier: Tier) -> Vec<GenQuery> {
             out.push(q(format!("SELECT count(*) AS c FROM users {kw} ref USING (city)"), &["users", "ref"], &["join", kind, "using", "aggregate"]));
         }
     }
+    // NATURAL / USING over several shared columns (the order in which the shared columns are paired must not matter
+    // and must not vary from one compilation to the next)
+    for (kw, kind) in [("JOIN", "inner"), ("LEFT JOIN", "left"), ("FULL JOIN", "full")] {
+        out.push(q(format!("SELECT id, age, city FROM (SELECT id, age FROM users) AS a NATURAL {kw} (SELECT id, age, city FROM users WHERE age > 18) AS b"), &["users"], &["join", kind, "natural", "two-shared-columns"]));
+        out.push(q(format!("SELECT id, age, city FROM users NATURAL {kw} (SELECT id, age, city FROM users WHERE id > 1) AS b"), &["users"], &["join", kind, "natural", "three-shared-columns"]));
+        out.push(q(format!("SELECT id, user_id, amount FROM orders NATURAL {kw} (SELECT id, user_id FROM orders WHERE amount > 5) AS b"), &["orders"], &["join", kind, "natural", "two-shared-columns"]));
+        out.push(q(format!("SELECT id, city, age FROM users {kw} (SELECT id, city FROM users WHERE age > 18) AS b USING (id, city)"), &["users"], &["join", kind, "using", "two-shared-columns"]));
+        out.push(q(format!("SELECT * FROM users NATURAL {kw} (SELECT id, age FROM users) AS b"), &["users"], &["join", kind, "natural", "two-shared-columns", "star"]));
+    }
     // chains of two joins
     for (k1, k2) in [("JOIN", "JOIN"), ("LEFT JOIN", "JOIN"), ("JOIN", "LEFT JOIN"), ("LEFT JOIN", "LEFT JOIN"), ("FULL JOIN", "LEFT JOIN")] {
         out.push(q(
@@ -412,7 +421,7 @@ pub fn queries_plus_depth(tier: Tier, depth: usize) -> Vec<GenQuery> {
     let mut terms = composed(depth);
     if tier == Tier::Quick && depth == 2 {
         // quick: plus the depth-3 joins of a set operation (key + column rows) with a base table, on <= 3 rows
-        terms.extend(composed(3).into_iter().filter(|g| g.term.as_ref().map_or(false, |t| t.starts_with("J.") && t.contains("(S."))).map(|mut g| {
+        terms.extend(composed(3).into_iter().filter(|g| g.term.as_ref().map_or(false, |t| t.starts_with("J.inner.eq.s2(S."))).map(|mut g| {
             g.max_total_rows = 3;
             g.tags.push("quick-depth-3");
             g
